@@ -1,15 +1,37 @@
-# Fail-closed translator from a small subset of Python (integer arithmetic over one byte-array
-# argument) to Gallina.  Used to REGENERATE coq/Model/MurmurGen.v from afkak/partitioner.py on
-# every run, so that the theorem `gen_pure_murmur2 = pure_murmur2` (Proofs/MurmurGenEq.v) is
-# re-checked against what the source says now.
+# Fail-closed translator from a small subset of Python (integer arithmetic over byte-array arguments)
+# to Gallina.  Used to translate afkak/partitioner.py:pure_murmur2 (and the module-level helpers and
+# constants it uses) on every run, so that the theorem `gen_pure_murmur2 = pure_murmur2`
+# (Proofs/MurmurGenTac.v, instantiated per run in coq/Run/out/gen/) is re-checked against what the
+# source says now.  The committed coq/Model/MurmurGen.v is a SNAPSHOT of the translation of /repo; it is
+# only rewritten by `refresh_snapshot` (./check --setup) after the proof about the new text has compiled.
 #
-# Supported statements: `x = e`, `x op= e` (op in * & ^ + - | << >>), `for i in range(e): body`,
-# `if cmp: body` (no else/elif), `return x`, docstrings, comments, and exactly one guard of the form
-# `if not isinstance(<arg>, bytearray): raise TypeError(...)` which is dropped (the model's inputs
-# are byte lists).  Supported expressions: int literals, names, + - * // % & | ^ << >> ~,
-# `len(<arg>)`, `<arg>[e]`, comparisons == != < <= > >= between two expressions.
-# Anything else raises Untranslatable: the check then reports the obligation as broken.
+# What is translated (everything else raises Untranslatable: tie (A) is then "unavailable"):
+#   module level   NAME = <constant integer expression>   (bound exactly once in the module, no `global`)
+#                  def helper(p1, ..): ...                 (called from the translated function; acyclic)
+#   statements     x = e      a, b = e1, e2      a, b = divmod(e, c)      x op= e   (+ - * // % & | ^ << >>)
+#                  for i in range(e) / range(e1, e2) / range(e1, e2, c): body   (no break/continue/else/return)
+#                  if / elif / else (a branch may `return`; not inside a loop)       return e        pass
+#                  docstrings;   y = bytearray(x) / bytes(x) / memoryview(x) / x   for an array x (alias)
+#                  type guards on an array argument, dropped (the model's inputs ARE byte arrays):
+#                      if not isinstance(x, bytearray): raise ...     if type(x) is not bytearray: raise ...
+#                      (also with a tuple of byte-array types) and a statement call `check(x)` of a helper whose
+#                      body consists of such guards only
+#   expressions    int literals, names, + - * // % & | ^ << >> ~ unary-, `e1 if c else e2`, len(x), x[e],
+#                  min/max/abs/int, helper calls; any variable-free sub-expression is folded by evaluating it in
+#                  Python (so 2**32 - 1, 1 << 32 are fine)
+#   conditions     comparisons (chained too), and/or/not, an integer used as a truth value (e != 0)
+# Restrictions that keep Python's and Z's meaning identical: the divisor of // and % and the step of range are
+# non-zero integer constants; shift counts are non-negative constants; x[e] is translated by py_index (negative
+# e counts from the end, as in Python; an out-of-range index, which raises in Python, reads 0); True/False,
+# floats, strings, attribute access, while, try, with, assert, lambda, comprehensions are refused.
 import ast
+import hashlib
+import os
+
+HERE = os.path.dirname(os.path.abspath(__file__))
+ROOT = os.path.dirname(HERE)
+COQ = os.path.join(ROOT, "coq")
+SNAPSHOT = os.path.join(COQ, "Model", "MurmurGen.v")
 
 
 class Untranslatable(Exception):
@@ -21,192 +43,732 @@ BINOPS = {
     ast.BitAnd: "Z.land", ast.BitOr: "Z.lor", ast.BitXor: "Z.lxor", ast.LShift: "Z.shiftl", ast.RShift: "Z.shiftr",
 }
 CMPOPS = {ast.Eq: "Z.eqb", ast.Lt: "Z.ltb", ast.LtE: "Z.leb", ast.Gt: "Z.gtb", ast.GtE: "Z.geb"}
+ARRAY_TYPES = ("bytearray", "bytes", "memoryview")
+MAX_SHIFT = 4096
 
 
-class Tr:
-    def __init__(self, arg):
-        self.arg = arg
+def zlit(v):
+    return "(%d)" % v
 
-    def expr(self, e):
-        if isinstance(e, ast.Constant) and isinstance(e.value, int) and not isinstance(e.value, bool):
-            return "(%d)" % e.value
+
+def py_fold(op, a, b):
+    """Python's own arithmetic on constants (the ground truth for the constant folding)."""
+    if isinstance(op, ast.Add):
+        return a + b
+    if isinstance(op, ast.Sub):
+        return a - b
+    if isinstance(op, ast.Mult):
+        return a * b
+    if isinstance(op, (ast.FloorDiv, ast.Mod)):
+        if b == 0:
+            raise Untranslatable("constant division by zero")
+        return a // b if isinstance(op, ast.FloorDiv) else a % b
+    if isinstance(op, ast.BitAnd):
+        return a & b
+    if isinstance(op, ast.BitOr):
+        return a | b
+    if isinstance(op, ast.BitXor):
+        return a ^ b
+    if isinstance(op, (ast.LShift, ast.RShift)):
+        if not 0 <= b <= MAX_SHIFT:
+            raise Untranslatable("constant shift count out of range")
+        return a << b if isinstance(op, ast.LShift) else a >> b
+    if isinstance(op, ast.Pow):
+        if not 0 <= b <= MAX_SHIFT or abs(a) > 1 << 64:
+            raise Untranslatable("constant power out of range")
+        return a ** b
+    raise Untranslatable("constant operator " + type(op).__name__)
+
+
+class Module:
+    """One parsed source file: its top-level functions and integer constants."""
+
+    def __init__(self, source):
+        self.tree = ast.parse(source)
+        self.funcs = {}
+        dup = set()
+        for node in self.tree.body:
+            if isinstance(node, ast.FunctionDef):
+                if node.name in self.funcs:
+                    dup.add(node.name)
+                self.funcs[node.name] = node
+        self.dup_funcs = dup
+        # how often is each name bound at module level (outside def/class bodies), or declared global anywhere
+        self.bind_count = {}
+        self.const_expr = {}
+        for node in self.tree.body:
+            self._count_bindings(node, top=True)
+        for node in ast.walk(self.tree):
+            if isinstance(node, (ast.Global, ast.Nonlocal)):
+                for n in node.names:
+                    self.bind_count[n] = self.bind_count.get(n, 0) + 2
+        self._const_cache = {}
+
+    def _bump(self, name):
+        self.bind_count[name] = self.bind_count.get(name, 0) + 1
+
+    def _count_bindings(self, node, top):
+        if isinstance(node, (ast.FunctionDef, ast.AsyncFunctionDef, ast.ClassDef)):
+            self._bump(node.name)
+            return
+        if isinstance(node, (ast.Import, ast.ImportFrom)):
+            for a in node.names:
+                self._bump((a.asname or a.name).split(".")[0])
+            return
+        if top and isinstance(node, ast.Assign) and len(node.targets) == 1 and isinstance(node.targets[0], ast.Name):
+            self._bump(node.targets[0].id)
+            self.const_expr[node.targets[0].id] = node.value
+            return
+        if top and isinstance(node, ast.AnnAssign) and isinstance(node.target, ast.Name) and node.value is not None:
+            self._bump(node.target.id)
+            self.const_expr[node.target.id] = node.value
+            return
+        # anything else at module level (try/if/for/with/augmented assignment ...): every name stored inside is "not constant"
+        for sub in ast.walk(node):
+            if isinstance(sub, ast.Name) and isinstance(sub.ctx, (ast.Store, ast.Del)):
+                self._bump(sub.id)
+                self._bump(sub.id)
+            elif isinstance(sub, (ast.FunctionDef, ast.ClassDef)) and sub is not node:
+                self._bump(sub.name)
+                self._bump(sub.name)
+            elif isinstance(sub, ast.ExceptHandler) and sub.name:
+                self._bump(sub.name)
+                self._bump(sub.name)
+            elif isinstance(sub, (ast.Import, ast.ImportFrom)):
+                for a in sub.names:
+                    self._bump((a.asname or a.name).split(".")[0])
+                    self._bump((a.asname or a.name).split(".")[0])
+
+    def constant(self, name, stack=()):
+        """value of a module-level integer constant, or None"""
+        if name in self._const_cache:
+            return self._const_cache[name]
+        if self.bind_count.get(name) != 1 or name not in self.const_expr or name in stack:
+            return None
+        try:
+            v = const_eval(self.const_expr[name], lambda n: self.constant(n, stack + (name,)))
+        except Untranslatable:
+            v = None
+        self._const_cache[name] = v
+        return v
+
+
+def const_eval(e, lookup):
+    """Evaluate a variable-free integer expression with Python's own arithmetic; None if it is not one."""
+    if isinstance(e, ast.Constant):
+        if isinstance(e.value, int) and not isinstance(e.value, bool):
+            return e.value
+        return None
+    if isinstance(e, ast.Name):
+        return lookup(e.id)
+    if isinstance(e, ast.BinOp):
+        a = const_eval(e.left, lookup)
+        if a is None:
+            return None
+        b = const_eval(e.right, lookup)
+        if b is None:
+            return None
+        if isinstance(e.op, ast.Div):
+            return None
+        return py_fold(e.op, a, b)
+    if isinstance(e, ast.UnaryOp):
+        a = const_eval(e.operand, lookup)
+        if a is None:
+            return None
+        if isinstance(e.op, ast.Invert):
+            return ~a
+        if isinstance(e.op, ast.USub):
+            return -a
+        if isinstance(e.op, ast.UAdd):
+            return a
+        return None
+    return None
+
+
+def is_docstring(s):
+    return isinstance(s, ast.Expr) and isinstance(s.value, ast.Constant) and isinstance(s.value.value, str)
+
+
+def stores(stmts):
+    """names bound (Store) anywhere in these statements, with multiplicity"""
+    out = {}
+    for s in stmts:
+        for n in ast.walk(s):
+            if isinstance(n, ast.Name) and isinstance(n.ctx, ast.Store):
+                out[n.id] = out.get(n.id, 0) + 1
+    return out
+
+
+def contains_return(stmts):
+    return any(isinstance(n, ast.Return) for s in stmts for n in ast.walk(s))
+
+
+class FnTr:
+    """Translation of one function.  Arrays are Gallina `list Z` named a_<x>; integers are Z named v_<x>."""
+
+    def __init__(self, tr, fn):
+        self.tr, self.mod, self.fn = tr, tr.mod, fn
+        a = fn.args
+        if a.vararg or a.kwarg or a.kwonlyargs or getattr(a, "posonlyargs", []) or fn.decorator_list:
+            raise Untranslatable("signature of %s" % fn.name)
+        self.params = [x.arg for x in a.args]
+        if len(set(self.params)) != len(self.params):
+            raise Untranslatable("duplicate parameter")
+        self.body = [s for s in fn.body]
+        self.store_count = stores(self.body)
+        for s in ast.walk(fn):
+            if isinstance(s, (ast.Global, ast.Nonlocal, ast.Lambda, ast.FunctionDef, ast.ClassDef, ast.Yield,
+                              ast.YieldFrom, ast.Await)) and s is not fn:
+                raise Untranslatable("%s inside %s" % (type(s).__name__, fn.name))
+        self.locals = set(self.params) | set(self.store_count)
+        self.arrays = None           # set of array-typed local names, computed by kinds()
+        self.local_const = {}        # locals bound exactly once, at the top level of the body, to a constant
+        self.defaults = {}
+        nd = len(a.defaults)
+        for p, d in zip(self.params[len(self.params) - nd:], a.defaults):
+            v = const_eval(d, self.mod.constant)
+            if v is None:
+                raise Untranslatable("default value of %s is not an integer constant" % p)
+            self.defaults[p] = v
+
+    # ---- kinds: which locals are byte arrays
+    def kinds(self):
+        if self.arrays is not None:
+            return self.arrays
+        arr = set()
+        changed = True
+        while changed:
+            changed = False
+            for n in ast.walk(self.fn):
+                new = None
+                if isinstance(n, ast.Subscript) and isinstance(n.value, ast.Name):
+                    new = n.value.id
+                elif isinstance(n, ast.Call) and isinstance(n.func, ast.Name) and n.func.id not in self.locals:
+                    f = n.func.id
+                    builtin = self.mod.bind_count.get(f, 0) == 0
+                    if builtin and f == "len" and len(n.args) == 1 and isinstance(n.args[0], ast.Name):
+                        new = n.args[0].id
+                    elif (builtin and f == "isinstance" and len(n.args) == 2 and isinstance(n.args[0], ast.Name)
+                          and self.is_array_type_expr(n.args[1])):
+                        new = n.args[0].id
+                    elif f in self.mod.funcs and f != self.fn.name:
+                        callee = self.tr.fn(f)
+                        for p, arg in zip(callee.params, n.args):
+                            if p in callee.kinds() and isinstance(arg, ast.Name) and arg.id not in arr and arg.id in self.locals:
+                                arr.add(arg.id)
+                                changed = True
+                elif (isinstance(n, ast.Compare) and len(n.ops) == 1 and isinstance(n.ops[0], (ast.Is, ast.IsNot, ast.Eq, ast.NotEq))
+                      and isinstance(n.left, ast.Call) and isinstance(n.left.func, ast.Name) and n.left.func.id == "type"
+                      and "type" not in self.locals and self.mod.bind_count.get("type", 0) == 0
+                      and len(n.left.args) == 1 and isinstance(n.left.args[0], ast.Name)
+                      and self.is_array_type_expr(n.comparators[0])):
+                    new = n.left.args[0].id
+                if new is not None and new in self.locals and new not in arr:
+                    arr.add(new)
+                    changed = True
+            # aliases  y = x / bytearray(x)  with x an array
+            for n in ast.walk(self.fn):
+                if isinstance(n, ast.Assign) and len(n.targets) == 1 and isinstance(n.targets[0], ast.Name):
+                    src = self.alias_source(n.value, arr)
+                    if src is not None and n.targets[0].id not in arr:
+                        arr.add(n.targets[0].id)
+                        changed = True
+        self.arrays = arr
+        return arr
+
+    def alias_source(self, e, arr):
+        if isinstance(e, ast.Name) and e.id in arr:
+            return e.id
+        if (isinstance(e, ast.Call) and isinstance(e.func, ast.Name) and e.func.id in ARRAY_TYPES
+                and e.func.id not in self.locals and self.mod.bind_count.get(e.func.id, 0) == 0
+                and len(e.args) == 1 and not e.keywords and isinstance(e.args[0], ast.Name) and e.args[0].id in arr):
+            return e.args[0].id
+        return None
+
+    # ---- guards
+    def is_array_type_expr(self, e):
+        def ok(n):
+            return (isinstance(n, ast.Name) and n.id in ARRAY_TYPES and n.id not in self.locals
+                    and self.mod.bind_count.get(n.id, 0) == 0)
+        if ok(e):
+            return True
+        return isinstance(e, ast.Tuple) and e.elts and all(ok(x) for x in e.elts)
+
+    def is_type_guard(self, s):
+        """`if <x is not a byte array>: raise ...` for an array x (no else)"""
+        if not (isinstance(s, ast.If) and not s.orelse and len(s.body) == 1 and isinstance(s.body[0], ast.Raise)):
+            return False
+        t = s.test
+        arr = self.kinds()
+        if isinstance(t, ast.UnaryOp) and isinstance(t.op, ast.Not):
+            c = t.operand
+            return (isinstance(c, ast.Call) and isinstance(c.func, ast.Name) and c.func.id == "isinstance"
+                    and "isinstance" not in self.locals and self.mod.bind_count.get("isinstance", 0) == 0
+                    and len(c.args) == 2 and not c.keywords and isinstance(c.args[0], ast.Name) and c.args[0].id in arr
+                    and self.is_array_type_expr(c.args[1]))
+        if isinstance(t, ast.Compare) and len(t.ops) == 1 and isinstance(t.ops[0], (ast.IsNot, ast.NotEq)):
+            c = t.left
+            return (isinstance(c, ast.Call) and isinstance(c.func, ast.Name) and c.func.id == "type"
+                    and "type" not in self.locals and self.mod.bind_count.get("type", 0) == 0
+                    and len(c.args) == 1 and isinstance(c.args[0], ast.Name) and c.args[0].id in arr
+                    and self.is_array_type_expr(t.comparators[0]) and not isinstance(t.comparators[0], ast.Tuple))
+        return False
+
+    def is_guard_only(self):
+        """a helper whose body is docstring + type guards (+ pass / return None) only"""
+        for s in self.body:
+            if is_docstring(s) or isinstance(s, ast.Pass) or self.is_type_guard(s):
+                continue
+            if isinstance(s, ast.Return) and (s.value is None or (isinstance(s.value, ast.Constant) and s.value.value is None)):
+                continue
+            return False
+        return True
+
+    # ---- constants
+    def cval(self, e, env):
+        """constant value of an expression (module constants, and locals bound once to a constant that are in scope)"""
+        def lookup(name):
+            if name in self.locals:
+                return self.local_const.get(name) if name in env else None
+            return self.mod.constant(name)
+        return const_eval(e, lookup)
+
+    # ---- expressions
+    def expr(self, e, env):
+        v = None
+        if not (isinstance(e, ast.Name) and e.id in self.locals):
+            v = self.cval(e, env)
+        if v is not None and not isinstance(e, ast.Name):
+            return zlit(v)
+        if isinstance(e, ast.Constant):
+            raise Untranslatable("constant %r" % (e.value,))
         if isinstance(e, ast.Name):
-            if e.id == self.arg:
-                raise Untranslatable("bare use of the array argument")
-            return "v_" + e.id
+            if e.id in self.locals:
+                if e.id in self.kinds():
+                    raise Untranslatable("array %s used as a number" % e.id)
+                if e.id not in env:
+                    raise Untranslatable("%s may be unbound here" % e.id)
+                return "v_" + e.id
+            if v is not None:
+                return zlit(v)
+            raise Untranslatable("name %s is not a local or a module integer constant" % e.id)
         if isinstance(e, ast.BinOp) and type(e.op) in BINOPS:
-            return "(%s %s %s)" % (BINOPS[type(e.op)], self.expr(e.left), self.expr(e.right))
+            if isinstance(e.op, (ast.FloorDiv, ast.Mod)):
+                d = self.cval(e.right, env)
+                if d is None or d == 0:
+                    raise Untranslatable("divisor is not a non-zero constant")
+            if isinstance(e.op, (ast.LShift, ast.RShift)):
+                d = self.cval(e.right, env)
+                if d is None or not 0 <= d <= MAX_SHIFT:
+                    raise Untranslatable("shift count is not a small non-negative constant")
+            return "(%s %s %s)" % (BINOPS[type(e.op)], self.expr(e.left, env), self.expr(e.right, env))
         if isinstance(e, ast.UnaryOp) and isinstance(e.op, ast.Invert):
-            return "(Z.lnot %s)" % self.expr(e.operand)
+            return "(Z.lnot %s)" % self.expr(e.operand, env)
         if isinstance(e, ast.UnaryOp) and isinstance(e.op, ast.USub):
-            return "(Z.opp %s)" % self.expr(e.operand)
-        if (isinstance(e, ast.Call) and isinstance(e.func, ast.Name) and e.func.id == "len" and len(e.args) == 1
-                and not e.keywords and isinstance(e.args[0], ast.Name) and e.args[0].id == self.arg):
-            return "(Z.of_nat (length a_%s))" % self.arg
-        if isinstance(e, ast.Subscript) and isinstance(e.value, ast.Name) and e.value.id == self.arg:
-            return "(nth (Z.to_nat %s) a_%s 0)" % (self.expr(e.slice), self.arg)
+            return "(Z.opp %s)" % self.expr(e.operand, env)
+        if isinstance(e, ast.UnaryOp) and isinstance(e.op, ast.UAdd):
+            return self.expr(e.operand, env)
+        if isinstance(e, ast.IfExp):
+            return "(if %s then %s else %s)" % (self.cond(e.test, env), self.expr(e.body, env), self.expr(e.orelse, env))
+        if isinstance(e, ast.Subscript):
+            if not (isinstance(e.value, ast.Name) and e.value.id in self.kinds()):
+                raise Untranslatable("subscript of a non-array")
+            if isinstance(e.slice, (ast.Slice, ast.Tuple)):
+                raise Untranslatable("slice")
+            return "(py_index %s %s)" % (self.arr(e.value.id, env), self.expr(e.slice, env))
+        if isinstance(e, ast.Call) and isinstance(e.func, ast.Name) and not e.keywords:
+            f = e.func.id
+            if f in self.locals:
+                raise Untranslatable("call of a local")
+            builtin = self.mod.bind_count.get(f, 0) == 0
+            if builtin and f == "len" and len(e.args) == 1 and isinstance(e.args[0], ast.Name) and e.args[0].id in self.kinds():
+                return "(Z.of_nat (length %s))" % self.arr(e.args[0].id, env)
+            if builtin and f in ("min", "max") and len(e.args) >= 2 and not any(isinstance(a, ast.Starred) for a in e.args):
+                out = self.expr(e.args[0], env)
+                for a in e.args[1:]:
+                    out = "(Z.%s %s %s)" % (f, out, self.expr(a, env))
+                return out
+            if builtin and f == "abs" and len(e.args) == 1:
+                return "(Z.abs %s)" % self.expr(e.args[0], env)
+            if builtin and f == "int" and len(e.args) == 1:
+                return self.expr(e.args[0], env)
+            if f in self.mod.funcs and not builtin:
+                return self.call(f, e.args, env)
         raise Untranslatable("expression " + ast.dump(e)[:120])
 
-    def cond(self, e):
-        if isinstance(e, ast.Compare) and len(e.ops) == 1 and type(e.ops[0]) in CMPOPS:
-            return "(%s %s %s)" % (CMPOPS[type(e.ops[0])], self.expr(e.left), self.expr(e.comparators[0]))
-        if isinstance(e, ast.Compare) and len(e.ops) == 1 and isinstance(e.ops[0], ast.NotEq):
-            return "(negb (Z.eqb %s %s))" % (self.expr(e.left), self.expr(e.comparators[0]))
-        raise Untranslatable("condition " + ast.dump(e)[:120])
+    def arr(self, name, env):
+        if name not in env:
+            raise Untranslatable("array %s may be unbound here" % name)
+        return "a_" + name
 
+    def call(self, f, args, env):
+        if f in self.mod.dup_funcs or self.mod.bind_count.get(f) != 1:
+            raise Untranslatable("function %s is bound more than once" % f)
+        callee = self.tr.fn(f)
+        if any(isinstance(a, ast.Starred) for a in args):
+            raise Untranslatable("starred argument")
+        if len(args) > len(callee.params):
+            raise Untranslatable("too many arguments for %s" % f)
+        out = []
+        for i, p in enumerate(callee.params):
+            if i < len(args):
+                a = args[i]
+                if p in callee.kinds():
+                    if not (isinstance(a, ast.Name) and a.id in self.kinds()):
+                        raise Untranslatable("array argument of %s must be an array name" % f)
+                    out.append(self.arr(a.id, env))
+                else:
+                    out.append(self.expr(a, env))
+            elif p in callee.defaults:
+                out.append(zlit(callee.defaults[p]))
+            else:
+                raise Untranslatable("missing argument %s of %s" % (p, f))
+        self.tr.need(f)
+        return "(%s %s)" % (self.tr.coqname(f), " ".join(out))
+
+    def cond(self, e, env):
+        if isinstance(e, ast.Compare):
+            parts, left = [], e.left
+            for op, right in zip(e.ops, e.comparators):
+                l, r = self.expr(left, env), self.expr(right, env)
+                if type(op) in CMPOPS:
+                    parts.append("(%s %s %s)" % (CMPOPS[type(op)], l, r))
+                elif isinstance(op, ast.NotEq):
+                    parts.append("(negb (Z.eqb %s %s))" % (l, r))
+                else:
+                    raise Untranslatable("comparison " + type(op).__name__)
+                left = right
+            out = parts[0]
+            for p in parts[1:]:
+                out = "(andb %s %s)" % (out, p)
+            return out
+        if isinstance(e, ast.BoolOp):
+            f = "andb" if isinstance(e.op, ast.And) else "orb"
+            out = self.cond(e.values[0], env)
+            for v in e.values[1:]:
+                out = "(%s %s %s)" % (f, out, self.cond(v, env))
+            return out
+        if isinstance(e, ast.UnaryOp) and isinstance(e.op, ast.Not):
+            return "(negb %s)" % self.cond(e.operand, env)
+        # an integer as a truth value
+        return "(negb (Z.eqb %s (0)))" % self.expr(e, env)
+
+    # ---- statements
     @staticmethod
     def assigned(stmts):
+        """int/array names bound by these statements (in order of first binding), without loop variables' bodies excluded"""
         out = []
+
+        def add(n):
+            if n not in out:
+                out.append(n)
         for s in stmts:
-            if isinstance(s, ast.Assign):
-                for t in s.targets:
-                    if not isinstance(t, ast.Name):
-                        raise Untranslatable("assignment target")
-                    if t.id not in out:
-                        out.append(t.id)
-            elif isinstance(s, ast.AugAssign):
-                if not isinstance(s.target, ast.Name):
-                    raise Untranslatable("augmented assignment target")
-                if s.target.id not in out:
-                    out.append(s.target.id)
-            elif isinstance(s, (ast.For, ast.If)):
-                for v in Tr.assigned(s.body):
-                    if v not in out:
-                        out.append(v)
+            if isinstance(s, (ast.Assign, ast.AugAssign, ast.AnnAssign)):
+                for n in ast.walk(s):
+                    if isinstance(n, ast.Name) and isinstance(n.ctx, ast.Store):
+                        add(n.id)
+            elif isinstance(s, ast.If):
+                for v in FnTr.assigned(s.body) + FnTr.assigned(s.orelse):
+                    add(v)
+            elif isinstance(s, ast.For):
+                if isinstance(s.target, ast.Name):
+                    add(s.target.id)
+                for v in FnTr.assigned(s.body):
+                    add(v)
         return out
 
-    def block(self, stmts, defined, result, ind):
-        """Translate stmts followed by the expression `result` (a string); `defined` = names in scope."""
-        pad = "  " * ind
-        if not stmts:
-            return pad + result
-        s, rest = stmts[0], stmts[1:]
-        if isinstance(s, ast.Expr) and isinstance(s.value, ast.Constant) and isinstance(s.value.value, str):
-            return self.block(rest, defined, result, ind)           # docstring
-        if isinstance(s, ast.Assign):
-            if len(s.targets) != 1 or not isinstance(s.targets[0], ast.Name):
-                raise Untranslatable("assignment form")
-            name = s.targets[0].id
-            return "%slet v_%s := %s in\n%s" % (pad, name, self.expr(s.value), self.block(rest, defined | {name}, result, ind))
-        if isinstance(s, ast.AugAssign):
-            if not isinstance(s.target, ast.Name) or type(s.op) not in BINOPS:
-                raise Untranslatable("augmented assignment form")
-            name = s.target.id
-            if name not in defined:
-                raise Untranslatable("augmented assignment to undefined " + name)
-            e = "(%s v_%s %s)" % (BINOPS[type(s.op)], name, self.expr(s.value))
-            return "%slet v_%s := %s in\n%s" % (pad, name, e, self.block(rest, defined, result, ind))
-        if isinstance(s, ast.If):
-            if s.orelse:
-                raise Untranslatable("else branch")
-            carried = [v for v in self.assigned(s.body) if v in defined]
-            local = [v for v in self.assigned(s.body) if v not in defined]
-            # names first assigned inside the branch must not be used after it
-            tup = self.tuple_of(carried)
-            body = self.block(s.body, set(defined), tup, ind + 2)
-            return "%slet %s :=\n%s  if %s then\n%s\n%s  else %s in\n%s" % (
-                pad, self.pattern_of(carried), pad, self.cond(s.test), body, pad, tup,
-                self.block(rest, defined - set(local), result, ind))
-        if isinstance(s, ast.For):
-            if s.orelse or not isinstance(s.target, ast.Name):
-                raise Untranslatable("for form")
-            it = s.iter
-            if not (isinstance(it, ast.Call) and isinstance(it.func, ast.Name) and it.func.id == "range"
-                    and len(it.args) == 1 and not it.keywords):
-                raise Untranslatable("for iterable")
-            carried = [v for v in self.assigned(s.body) if v in defined]
-            ivar = s.target.id
-            tup = self.tuple_of(carried)
-            body = self.block(s.body, set(defined) | {ivar}, tup, ind + 2)
-            return ("%slet %s :=\n%s  fold_left (fun acc v_%s => let %s := acc in\n%s)\n%s    (map Z.of_nat (seq 0 (Z.to_nat %s))) %s in\n%s" % (
-                pad, self.pattern_of(carried), pad, ivar, self.pattern_of(carried), body, pad, self.expr(it.args[0]), tup,
-                self.block(rest, defined, result, ind)))
-        if isinstance(s, ast.Return):
-            if rest:
-                raise Untranslatable("statements after return")
-            return pad + self.expr(s.value)
-        raise Untranslatable("statement " + ast.dump(s)[:120])
-
     @staticmethod
-    def tuple_of(names):
+    def must_assign(stmts):
+        """names certainly bound when these statements fall through"""
+        out = set()
+        for s in stmts:
+            if isinstance(s, (ast.Assign, ast.AnnAssign)):
+                for n in ast.walk(s):
+                    if isinstance(n, ast.Name) and isinstance(n.ctx, ast.Store):
+                        out.add(n.id)
+            elif isinstance(s, ast.If):
+                out |= FnTr.must_assign(s.body) & FnTr.must_assign(s.orelse)
+        return out
+
+    def tuple_of(self, names):
         if not names:
             return "tt"
         if len(names) == 1:
             return "v_" + names[0]
         return "(" + ", ".join("v_" + n for n in names) + ")"
 
-    @staticmethod
-    def pattern_of(names):
+    def pattern_of(self, names):
         if not names:
             return "_"
         if len(names) == 1:
             return "v_" + names[0]
         return "'(" + ", ".join("v_" + n for n in names) + ")"
 
+    def block(self, stmts, env, fall, ind, top=False, in_loop=False):
+        """Translate stmts; `fall(env)` gives the text used where control falls off the end."""
+        pad = "  " * ind
+        if not stmts:
+            return pad + fall(env)
+        s, rest = stmts[0], stmts[1:]
+        nxt = lambda env2: self.block(rest, env2, fall, ind, top, in_loop)
+        if is_docstring(s) or isinstance(s, ast.Pass):
+            return nxt(env)
+        if self.is_type_guard(s):
+            if in_loop or not top:
+                raise Untranslatable("type guard not at the top level of the function")
+            return nxt(env)
+        if isinstance(s, ast.Expr) and isinstance(s.value, ast.Call) and isinstance(s.value.func, ast.Name):
+            f = s.value.func.id
+            if (top and f in self.mod.funcs and f not in self.locals and self.mod.bind_count.get(f) == 1
+                    and f not in self.mod.dup_funcs and not s.value.keywords):
+                callee = self.tr.fn(f)
+                if (callee.is_guard_only() and len(s.value.args) == len(callee.params)
+                        and all(isinstance(a, ast.Name) and a.id in self.kinds() and a.id in env for a in s.value.args)
+                        and all(p in callee.kinds() for p in callee.params)):
+                    return nxt(env)
+            raise Untranslatable("expression statement")
+        if isinstance(s, ast.AnnAssign) and isinstance(s.target, ast.Name) and s.value is not None:
+            s = ast.Assign(targets=[s.target], value=s.value)
+        if isinstance(s, ast.Assign):
+            if len(s.targets) != 1:
+                raise Untranslatable("chained assignment")
+            t = s.targets[0]
+            if isinstance(t, ast.Name):
+                name = t.id
+                if name in self.kinds():
+                    src = self.alias_source(s.value, self.kinds())
+                    if src is None or in_loop or not top:
+                        raise Untranslatable("array assignment form")
+                    return "%slet a_%s := %s in\n%s" % (pad, name, self.arr(src, env), nxt(env | {name}))
+                val = self.expr(s.value, env)
+                if top and not in_loop and self.store_count.get(name) == 1 and name not in self.params:
+                    v = self.cval(s.value, env)
+                    if v is not None:
+                        self.local_const[name] = v
+                return "%slet v_%s := %s in\n%s" % (pad, name, val, nxt(env | {name}))
+            if isinstance(t, ast.Tuple) and all(isinstance(x, ast.Name) for x in t.elts):
+                names = [x.id for x in t.elts]
+                if len(set(names)) != len(names) or any(n in self.kinds() for n in names):
+                    raise Untranslatable("tuple assignment targets")
+                v = s.value
+                if isinstance(v, ast.Tuple) and len(v.elts) == len(names) and not any(isinstance(x, ast.Starred) for x in v.elts):
+                    vals = [self.expr(x, env) for x in v.elts]
+                elif (isinstance(v, ast.Call) and isinstance(v.func, ast.Name) and v.func.id == "divmod"
+                      and "divmod" not in self.locals and self.mod.bind_count.get("divmod", 0) == 0
+                      and len(v.args) == 2 and not v.keywords and len(names) == 2):
+                    d = self.cval(v.args[1], env)
+                    if d is None or d == 0:
+                        raise Untranslatable("divmod divisor is not a non-zero constant")
+                    a, b = self.expr(v.args[0], env), self.expr(v.args[1], env)
+                    vals = ["(Z.div %s %s)" % (a, b), "(Z.modulo %s %s)" % (a, b)]
+                else:
+                    raise Untranslatable("tuple assignment value")
+                return "%slet %s := (%s) in\n%s" % (pad, self.pattern_of(names), ", ".join(vals), nxt(env | set(names)))
+            raise Untranslatable("assignment target")
+        if isinstance(s, ast.AugAssign):
+            if not isinstance(s.target, ast.Name) or type(s.op) not in BINOPS:
+                raise Untranslatable("augmented assignment form")
+            name = s.target.id
+            if name in self.kinds():
+                raise Untranslatable("augmented assignment to an array")
+            e = self.expr(ast.BinOp(left=ast.Name(id=name, ctx=ast.Load()), op=s.op, right=s.value), env)
+            return "%slet v_%s := %s in\n%s" % (pad, name, e, nxt(env))
+        if isinstance(s, ast.If):
+            if contains_return([s]):
+                if in_loop:
+                    raise Untranslatable("return inside a loop")
+                # control flow:  if c: A else: B ; rest   ==   if c: (A ; rest) else: (B ; rest)
+                a = self.block(list(s.body) + rest, set(env), fall, ind + 1, False, in_loop)
+                b = self.block(list(s.orelse) + rest, set(env), fall, ind + 1, False, in_loop)
+                return "%sif %s then\n%s\n%selse\n%s" % (pad, self.cond(s.test, env), a, pad, b)
+            names = self.assigned(s.body) + [v for v in self.assigned(s.orelse) if v not in self.assigned(s.body)]
+            if any(n in self.kinds() for n in names):
+                raise Untranslatable("array assignment inside a branch")
+            both = self.must_assign(s.body) & self.must_assign(s.orelse)
+            carried = [v for v in names if v in env or v in both]
+            ta = self.block(s.body, set(env), lambda e2: self.tuple_checked(carried, e2), ind + 2, False, in_loop)
+            tb = self.block(s.orelse, set(env), lambda e2: self.tuple_checked(carried, e2), ind + 2, False, in_loop)
+            env2 = (env | set(carried))
+            return "%slet %s :=\n%s  if %s then\n%s\n%s  else\n%s in\n%s" % (
+                pad, self.pattern_of(carried), pad, self.cond(s.test, env), ta, pad, tb, nxt(env2))
+        if isinstance(s, ast.For):
+            if s.orelse or not isinstance(s.target, ast.Name) or contains_return(s.body):
+                raise Untranslatable("for form")
+            ivar = s.target.id
+            if ivar in self.kinds():
+                raise Untranslatable("loop variable is an array")
+            it = s.iter
+            if not (isinstance(it, ast.Call) and isinstance(it.func, ast.Name) and it.func.id == "range"
+                    and "range" not in self.locals and self.mod.bind_count.get("range", 0) == 0
+                    and 1 <= len(it.args) <= 3 and not it.keywords and not any(isinstance(a, ast.Starred) for a in it.args)):
+                raise Untranslatable("for iterable is not range(...)")
+            if len(it.args) == 1:
+                start, stop, step = "(0)", self.expr(it.args[0], env), "(1)"
+            else:
+                start, stop = self.expr(it.args[0], env), self.expr(it.args[1], env)
+                step = "(1)"
+                if len(it.args) == 3:
+                    d = self.cval(it.args[2], env)
+                    if d is None or d == 0:
+                        raise Untranslatable("range step is not a non-zero constant")
+                    step = zlit(d)
+            body_names = self.assigned(s.body)
+            if any(n in self.kinds() for n in body_names):
+                raise Untranslatable("array assignment inside a loop")
+            carried = [v for v in body_names if v in env and v != ivar]
+            tup = self.tuple_of(carried)
+            body = self.block(s.body, set(env) | {ivar}, lambda e2: self.tuple_checked(carried, e2), ind + 2, False, True)
+            # after the loop: the loop variable and names first bound inside the body are treated as unbound
+            env_after = set(env) - {ivar}
+            return ("%slet %s :=\n%s  fold_left (fun acc v_%s => let %s := acc in\n%s)\n%s    (py_range %s %s %s) %s in\n%s" % (
+                pad, self.pattern_of(carried), pad, ivar, self.pattern_of(carried), body, pad, start, stop, step, tup,
+                nxt(env_after)))
+        if isinstance(s, ast.Return):
+            if in_loop:
+                raise Untranslatable("return inside a loop")
+            if s.value is None:
+                raise Untranslatable("return without a value")
+            return pad + self.expr(s.value, env)
+        raise Untranslatable("statement " + ast.dump(s)[:100])
 
-def translate_function(source, fname, coqname):
-    """Returns Gallina text `Definition <coqname> (a_<arg> : list Z) (v_<p2> ... : Z) : Z := ...`"""
-    tree = ast.parse(source)
-    fn = None
-    for node in tree.body:
-        if isinstance(node, ast.FunctionDef) and node.name == fname:
-            fn = node
-    if fn is None:
-        raise Untranslatable("function %s not found" % fname)
-    args = [a.arg for a in fn.args.args]
-    if fn.args.vararg or fn.args.kwarg or fn.args.kwonlyargs or len(args) < 1:
-        raise Untranslatable("signature")
-    arr = args[0]
-    body = list(fn.body)
-    # drop the documented type guard (exact shape only)
-    kept = []
-    for s in body:
-        if (isinstance(s, ast.If) and isinstance(s.test, ast.UnaryOp) and isinstance(s.test.op, ast.Not)
-                and isinstance(s.test.operand, ast.Call) and getattr(s.test.operand.func, "id", None) == "isinstance"
-                and len(s.body) == 1 and isinstance(s.body[0], ast.Raise) and not s.orelse
-                and getattr(s.test.operand.args[0], "id", None) == arr
-                and getattr(s.test.operand.args[1], "id", None) == "bytearray"):
-            continue
-        kept.append(s)
-    if not kept or not isinstance(kept[-1], ast.Return):
-        raise Untranslatable("function must end with return")
-    tr = Tr(arr)
-    text = tr.block(kept, set(args[1:]), "", 1)
-    params = " ".join("(v_%s : Z)" % a for a in args[1:])
-    defaults = {}
-    nd = len(fn.args.defaults)
-    for a, d in zip(args[len(args) - nd:], fn.args.defaults):
-        if isinstance(d, ast.Constant) and isinstance(d.value, int):
-            defaults[a] = d.value
-        else:
-            raise Untranslatable("default value")
-    return ("Definition %s (a_%s : list Z) %s : Z :=\n%s.\n" % (coqname, arr, params, text)), defaults
+    def tuple_checked(self, names, env):
+        for n in names:
+            if n not in env:
+                raise Untranslatable("%s may be unbound at the end of a block" % n)
+        return self.tuple_of(names)
+
+    def definition(self):
+        arr = self.kinds()
+
+        def nofall(env):
+            raise Untranslatable("%s can fall off its end without a return" % self.fn.name)
+        text = self.block(self.body, set(self.params), nofall, 1, top=True)
+        params = " ".join(("(a_%s : list Z)" % p) if p in arr else ("(v_%s : Z)" % p) for p in self.params)
+        return "Definition %s %s : Z :=\n%s.\n" % (self.tr.coqname(self.fn.name), params, text)
+
+
+class Translator:
+    def __init__(self, source, main, main_coqname):
+        self.mod = Module(source)
+        self.main, self.main_coqname = main, main_coqname
+        self._fn = {}
+        self.order = []          # helpers in dependency order
+        self._active = []
+
+    def coqname(self, f):
+        if f == self.main:
+            return self.main_coqname
+        return "gen_h_" + f
+
+    def fn(self, f):
+        if f not in self._fn:
+            if f in self._active:
+                raise Untranslatable("recursive helper " + f)
+            if f not in self.mod.funcs:
+                raise Untranslatable("function %s not found" % f)
+            if f in self.mod.dup_funcs:
+                raise Untranslatable("function %s defined twice" % f)
+            self._active.append(f)
+            try:
+                t = FnTr(self, self.mod.funcs[f])
+                self._fn[f] = t
+                t.kinds()
+            finally:
+                self._active.pop()
+        return self._fn[f]
+
+    def need(self, f):
+        if f in self._active:
+            raise Untranslatable("recursive helper " + f)
+        if f not in [n for n, _ in self.order]:
+            self._active.append(f)
+            try:
+                text = self.fn(f).definition()
+            finally:
+                self._active.pop()
+            self.order.append((f, text))
+
+    def run(self):
+        if self.mod.bind_count.get(self.main) != 1:
+            raise Untranslatable("function %s not found (or bound more than once)" % self.main)
+        t = self.fn(self.main)
+        self._active.append(self.main)
+        text = t.definition()
+        self._active.pop()
+        if not t.params or t.params[0] not in t.kinds() or any(p in t.kinds() for p in t.params[1:]):
+            raise Untranslatable("signature: first parameter must be the byte array, the others integers")
+        return t, text
+
+
+PRELUDE = "From AV Require Import Model.MurmurPy.\nFrom Coq Require Import ZArith List.\nImport ListNotations.\nOpen Scope Z_scope.\n\n"
+
+
+def translate_source(source, fname="pure_murmur2", coqname="gen_pure_murmur2"):
+    """Returns (Gallina text of the whole generated module, message).  Raises Untranslatable."""
+    tr = Translator(source, fname, coqname)
+    t, main_text = tr.run()
+    if len(t.params) != 2:
+        raise Untranslatable("signature: expected (byte_array, seed)")
+    seed = t.defaults.get(t.params[1])
+    if seed is None:
+        raise Untranslatable("seed default missing")
+    names = [tr.coqname(f) for f, _ in tr.order] + [coqname]
+    body = ("(* GENERATED by harness/py2coq.py from afkak/partitioner.py pure_murmur2 - do not edit. *)\n" + PRELUDE
+            + "".join(text + "\n" for _, text in tr.order) + main_text
+            + "\nDefinition gen_seed : Z := (%d).\n" % seed
+            + "\nCreate HintDb gen_defs.\n#[export] Hint Unfold %s : gen_defs.\n" % " ".join(names))
+    return body, "translated" + ((" (helpers inlined: %s)" % ", ".join(f for f, _ in tr.order)) if tr.order else "")
+
+
+def translate_repo(repo):
+    """(ok, text-or-None, message) for <repo>/afkak/partitioner.py"""
+    try:
+        src = open(os.path.join(repo, "afkak", "partitioner.py")).read()
+        text, msg = translate_source(src)
+        return True, text, msg
+    except (Untranslatable, SyntaxError, OSError, RecursionError) as e:
+        return False, None, "%s: %s" % (type(e).__name__, str(e)[:300])
+
+
+def text_id(text):
+    return hashlib.sha1(text.encode()).hexdigest()[:16]
 
 
 def generate_murmur(repo, out_path):
-    """Writes coq/Model/MurmurGen.v; returns (ok, message)."""
-    import os
-    src = open(os.path.join(repo, "afkak", "partitioner.py")).read()
-    try:
-        text, defaults = translate_function(src, "pure_murmur2", "gen_pure_murmur2")
-        seed = defaults.get("seed")
-        if seed is None:
-            raise Untranslatable("seed default missing")
-        body = ("(* GENERATED by harness/py2coq.py from afkak/partitioner.py pure_murmur2 - do not edit. *)\n"
-                "From Coq Require Import ZArith List.\nImport ListNotations.\nOpen Scope Z_scope.\n\n"
-                + text + "\nDefinition gen_seed : Z := (%d).\n" % seed)
-        ok, msg = True, "translated"
-    except (Untranslatable, SyntaxError) as e:
-        # fail closed: a definition that cannot be proved equal to the hand model
-        body = ("(* GENERATED: translation FAILED: %s *)\nFrom Coq Require Import ZArith List.\nOpen Scope Z_scope.\n"
-                "Definition gen_pure_murmur2 (a : list Z) (s : Z) : Z := -1.\nDefinition gen_seed : Z := -1.\n" % str(e).replace("*)", "* )"))
-        ok, msg = False, str(e)
+    """Kept for harness/main.py (--setup): refresh the committed SNAPSHOT coq/Model/MurmurGen.v from /repo.
+    Never writes a failed translation, never writes the translation of a scratch copy (VERIF_REPO), and replaces
+    the snapshot only after the theorems about the new text have compiled in coq/Run/out/gen/."""
+    return refresh_snapshot(repo, out_path)
+
+
+def refresh_snapshot(repo="/repo", out_path=SNAPSHOT):
+    if os.path.abspath(repo) != "/repo":
+        return True, "snapshot kept (VERIF_REPO run)"
+    ok, text, msg = translate_repo(repo)
+    if not ok:
+        return False, "snapshot kept; /repo not translatable: " + msg
     old = open(out_path).read() if os.path.exists(out_path) else None
-    if old != body:
-        open(out_path, "w").write(body)
-    return ok, msg
+    if old == text:
+        return True, "snapshot up to date"
+    if old is not None:
+        try:
+            import murmur_tie
+            good, log = murmur_tie.prove_in_scratch(text, need_base=True)
+        except Exception as e:      # noqa: BLE001 - keep the old snapshot on any failure
+            good, log = False, repr(e)
+        if not good:
+            return False, "snapshot kept; the proof about the new translation does not compile: " + log[-300:]
+    tmp = out_path + ".tmp%d" % os.getpid()
+    with open(tmp, "w") as f:
+        f.write(text)
+    os.replace(tmp, out_path)
+    return True, "snapshot refreshed"
 
 
 if __name__ == "__main__":
     import sys
-    print(generate_murmur(sys.argv[1] if len(sys.argv) > 1 else "/repo", "/verif/coq/Model/MurmurGen.v"))
+    if len(sys.argv) > 1 and sys.argv[1] == "--print":
+        ok, text, msg = translate_repo(sys.argv[2] if len(sys.argv) > 2 else "/repo")
+        print(text if ok else "FAILED: " + msg)
+    else:
+        print(refresh_snapshot(sys.argv[1] if len(sys.argv) > 1 else "/repo"))
